@@ -4,7 +4,7 @@
 set -u
 patch="$(readlink -f "$1")"; shift
 wt="/tmp/tp_$$"
-git -C /repo worktree add -f --detach "$wt" HEAD >/dev/null 2>&1 || { echo "cannot create worktree"; exit 2; }
+(flock 9; git -C /repo worktree add -f --detach "$wt" HEAD >/dev/null 2>&1) 9>/tmp/.wtlock || { echo "cannot create worktree"; exit 2; }
 trap 'git -C /repo worktree remove --force "$wt" >/dev/null 2>&1; rm -rf "$wt"' EXIT
 git -C "$wt" apply "$patch" || { echo "patch does not apply to HEAD"; exit 2; }
 cd /verif
